@@ -20,7 +20,7 @@ CASE_TIMEOUT = 30
 RULE = ("one case = generated planar map (random / dyadic grid / chain; one-way streets, dead ends, self-listed neighbours, zero-length "
         "roads; int, string and gapped labels) x trace (noisy walk, sparse, outliers, on nodes/roads, repeats, length 1) x configuration "
         "(simple edge states / simple node-and-edge states / distance; noise; max_dist, max_dist_init, min_prob_norm absent, random, or "
-        "set to a value observed in a first pass over the same input). Non-trivial = >= 2 observations and some lattice column with >= 2 "
+        "set to a value observed in a first pass over the same input); 30 % of the cases reuse one matcher object (another trace, often stopping early, is matched first) and 15 % run with the package logger at DEBUG. Non-trivial = >= 2 observations and some lattice column with >= 2 "
         "live candidates; distinct = hash of the case")
 ANCHORS = [("leuvenmapmatching/matcher/base.py", "BaseMatching.update"),
            ("leuvenmapmatching/matcher/base.py", "LatticeColumn.upsert"),
